@@ -252,6 +252,9 @@ def run(ctx):
         rule_eq(ctx, F)
         rule_condense(ctx, F)
         rule_fragile_sides(ctx, F)
+        # a resumed parse keeps its place in the old tree: nothing touches parser state before the resume test (shared with C09.P1)
+        import C09
+        C09.rule_p1(ctx, F)
         # an edited tree's included ranges feed the range difference that vetoes reuse (shared with C10.W2)
         import C10
         C10.rule_range_edit(ctx, F)
